@@ -68,6 +68,8 @@ class Impl:
         # second names of the same file (hard links): the tree lists both names with the same content, on disk they
         # share one inode
         for dst, src in (sc.get("hardlinks") or {}).items():
+            if not (os.path.isfile(self.P(src)) and os.path.isfile(self.P(dst))):
+                continue  # (a shrunk scenario may have lost one of the two names: the other stays a plain file)
             try:
                 os.remove(self.P(dst))
                 os.link(self.P(src), self.P(dst))
@@ -512,7 +514,8 @@ def run_scenario(sc, drv=None, keep=False, impl_only=False):
                     mo = drv.command(mop, commit=(k == "create"))
                     diffs = compare(op, io, mo)
                     if k == "info" and io["exit"] == 0 and io["exc"] is None:
-                        ig = [(os.path.relpath(s, impl.P(op.get("at", ""))) if s != "." else ".", n) for s, n, _, _ in parse_info(io["out"])]
+                        lnk = os.path.join(base, "_lnk")
+                        ig = [(os.path.relpath(base + s[len(lnk):] if s.startswith(lnk + os.sep) else s, impl.P(op.get("at", ""))) if s != "." else ".", n) for s, n, _, _ in parse_info(io["out"])]
                         mg = [(g[0], g[1]) for g in mo.get("gens", [])]
                         if ig != mg:
                             diffs.append(f"info generations: impl {ig} model {mg}")
